@@ -264,7 +264,7 @@ def rename_variant(lay):
 
 
 def run(ctx):
-    n = 400 if ctx.tier == "quick" else 8000
+    n = ctx.n(400, 8000)
     rng = core.Rng(ctx.seed)
     fmts, _ = hist.formats_from_source()
     lays = link_corpus() + [fix_toml(gen_layout(rng.fork("case%d" % i))) for i in range(n)]
